@@ -53,3 +53,17 @@ def eval_bools(prop, name, header, checks, timeout=900, jobs=5, nshards=None):
             raise C.MachineryError("cases file %s failed to evaluate:\n%s" % (p, out[-3000:]))
         bad += [int(x) for x in re.findall(r"@@BAD (\d+)", out)]
     return sorted(bad)
+
+
+def enable_jax_cache():
+    """Persistent XLA compilation cache under run/ (git-ignored): the checks call many tiny
+    eagerly-dispatched JAX primitives on many shapes; caching the executables only saves time."""
+    import jax
+    d = os.path.join(C.RUN, "jaxcache")
+    os.makedirs(d, exist_ok=True)
+    try:
+        jax.config.update("jax_compilation_cache_dir", d)
+        jax.config.update("jax_persistent_cache_min_compile_time_secs", 0.0)
+        jax.config.update("jax_persistent_cache_min_entry_size_bytes", -1)
+    except Exception:
+        pass
